@@ -1046,7 +1046,7 @@ func Prop() *core.Prop {
 		},
 		Cases: func(tier string) int {
 			if tier == "thorough" {
-				return 2000000
+				return 4000000
 			}
 			return 100000
 		},
